@@ -11,6 +11,24 @@ func init() {
 			}
 			jobs = append(jobs, &Job{Scenario: "c17.striped", Params: js(p), Variant: variant, PB: pb, EB: eb, Shards: shards, BudgetS: budget, Terminat: true, Need: need})
 		}
+		// "dropping reads never changes what any cache operation returns": with a deferred executor nothing drains
+		// the read buffer, so a run of reads saturates it (ring size 4 in the small-scope build) and later reads are
+		// dropped; every operation after that must still agree with the reference model.
+		for _, cfg := range []CacheCfg{
+			{MaxSize: 3, Executor: "deferred"},
+			{MaxSize: 2, Expiry: "accessing", TTL: 100, Executor: "deferred", ClockStart: 1 << 40},
+		} {
+			pre := []string{"set 1", "set 2", "runexec", "get 1", "get 1", "get 2", "get 1", "get 1", "get 2", "get 1"}
+			a := baseAlphabet([]int{1, 2, 3}, cfg, false)
+			a = append(a, "get 1", "gete 2", "cw 1", "coldest", "hottest", "runexec")
+			depth := 2
+			if thorough {
+				depth = 3
+			}
+			j := seqJob(seqParams{Cfg: cfg, Alphabet: a, Prefixes: [][]string{pre}}, depth, 2, 60, "read-buffer-saturated")
+			j.Variant = "small"
+			jobs = append(jobs, j)
+		}
 		if !thorough {
 			// first-use initialisation race + adds racing one drain
 			add(c17Params{MaxLen: 2, Adders: []int{2, 2}, Drains: 1}, "small", 2, 0, 8, 60, "success")
